@@ -505,6 +505,9 @@ func (c *Collection) Update(key string, exp Exp, callback sgbucket.UpdateFunc) (
 		if err == nil {
 			break
 		} else if _, ok := err.(sgbucket.CasMismatchErr); !ok {
+			if cas != 0 && errors.As(err, &missingError) {
+				continue // the document was deleted after we read it: that is a CAS failure too
+			}
 			return 0, err // fatal error
 		}
 	}
